@@ -13,6 +13,9 @@ const checkFnName = "check_all15"
 
 func wrapCase(term string) string { return "CCache " + term }
 
+// the [mutate; announce] atomicity family belongs to C14
+func addConcCase(e *emitter, c *Case) {}
+
 
 var allTargets = []string{"t", "u", "v", "w"}
 
@@ -300,6 +303,8 @@ func ruleText() string {
 		"seeded random histories of 3..14 calls over 1..2 targets (single/multi/atomic/delete/empty notifications, timestamps mostly 1..4 so that " +
 		"stale / equal / newer all occur, event-driven on/off, future threshold in {0,2}, wildcard deletes, element-form and prefix-only paths, " +
 		"Sync/Connect/ConnectError/Reset/UpdateMetadata/UpdateSize under a monotone clock); " +
+		"multi-update notifications mixing accepted and refused units (refusal by schema collision / invalid path / ErrFuture / ErrStale, " +
+		"refused unit first, middle or last, 2..3 units) newer than the latest timestamp, followed by UpdateMetadata; " +
 		"latency histories of 4..25 Compute/UpdateReset/UpdateLast calls (windows 2p/4p for period p in {10,1000}, precision in {unset,1ns,1us}, " +
 		"latencies incl. 0, negative, multiples of the precision +-1); cache-level latency histories (cache built with latency windows 20/40 ns, " +
 		"period 10 ns, one synced target, per period 1..4 single updates: accepted ones with latencies 1..8 ns mixed with stale replays, " +
@@ -320,6 +325,7 @@ func generate(e *emitter, o vh.Opts) {
 	}
 	e.meta.Extra["exhaustive_alphabet_size"] = len(al)
 	e.meta.Extra["exhaustive_depth"] = depth
+	generateMultiMix(e, o)
 	r := vh.NewRand(o.Seed)
 	nrand, nlat := 700, 1500
 	if o.Thorough() {
